@@ -56,7 +56,7 @@ def run(tier):
     cov['rule'] = ('arith: signed operands {0, 1, 2, 9999, 10^4, 2^k-2..2^k+2 for k at the 32-bit limb boundaries up to 2^256, a 40-digit number} x small/limb-sized '
                    'right operands x {+ - * / % compare}, shifts by 0,1,31..33,63..65,100; conv: decimal/hex/byte conversions of every operand; lit: integer '
                    'literals 2^k-2..2^k+2 for k in 31,32,53,63,64 with both signs; round: 68 integers in [2^52, 2^65] incl. exact midpoints and powers of ten, '
-                   'each in 5 spellings; dbl: every finite float16 value, float32 values at a fixed stride, seeded random doubles (VERIF_SEED)')
+                   'each in 5 spellings; dbl: every finite float16 value, float32 values at a fixed stride, seeded random doubles (VERIF_SEED), and (TLC-generated) every binary64 exponent field 0..2046 x 8 significand fields at the edges and the middle of the binade (exact powers of two, their neighbours, all-ones) x both signs')
     cov['bounds'] = open(os.path.join(vf.SPEC, CFG[tier])).read().split('CONSTANTS')[1].split()
     cov['samples'] = [json.loads(lines[0]), json.loads(lines[-1])] if lines else []
     rep.assumptions += ['correct rounding of arbitrary long decimal literals and minimality of the printed digits are outside this check (DESIGN 5/C04)',
